@@ -9,6 +9,10 @@ Identities (the Lean driver's numbering):
   t0 = Add(x=1, log0)  t1 = Add(x=2, log1)  t2 = FailFirst(x=2, log2)  t3 = Fail(x=5, log3)  t4 = OkFirst(x=7, log4)
   w0 = Chain2(x=1, log0, log1)  = nodes [t0, t1], value 3        (node identities coincide with the standalone tasks)
   w1 = ChainF(x=1, log0, log2)  = nodes [t0, t2], value 102
+  t5 = Add(x=3, log5)  t6 = Add(x=4, log6)
+  w2 = Nest2(x=1, log0, log1, log5)        = nodes [w0 = [t0, t1], t5], value 4          (a workflow as a node: depth 2)
+  w3 = Nest3(x=1, log0, log1, log5, log6)  = nodes [w2 = [w0 = [t0, t1], t5], t6], value 5   (depth 3)
+In the driver's encoding a node is a task number or ["w", n, [nodes]].
 """
 
 from __future__ import annotations
@@ -86,10 +90,24 @@ def ChainF(x: int, log_a: str, log_c: str) -> int:
     return c.out
 
 
+@workflow.define
+def Nest2(x: int, log_a: str, log_b: str, log_c: str) -> int:
+    inner = workflow.add(Chain2(x=x, log_a=log_a, log_b=log_b), name="inner")
+    c = workflow.add(Add(x=inner.out, log=log_c), name="c")
+    return c.out
+
+
+@workflow.define
+def Nest3(x: int, log_a: str, log_b: str, log_c: str, log_d: str) -> int:
+    mid = workflow.add(Nest2(x=x, log_a=log_a, log_b=log_b, log_c=log_c), name="mid")
+    d = workflow.add(Add(x=mid.out, log=log_d), name="d")
+    return d.out
+
+
 # outcomes of the executions of each task (number = value, None = raises); the last one repeats
-BODIES = {0: [2], 1: [3], 2: [None, 102], 3: [None], 4: [207, None]}
-WF_NODES = {0: [0, 1], 1: [0, 2]}
-WF_VALS = {0: 3, 1: 102}
+BODIES = {0: [2], 1: [3], 2: [None, 102], 3: [None], 4: [207, None], 5: [4], 6: [5]}
+WF_NODES = {0: [0, 1], 1: [0, 2], 2: [["w", 0, [0, 1]], 5], 3: [["w", 2, [["w", 0, [0, 1]], 5]], 6]}
+WF_VALS = {0: 3, 1: 102, 2: 4, 3: 5}
 TASK_KEYS = [f"t{i}" for i in sorted(BODIES)]
 WF_KEYS = [f"w{i}" for i in sorted(WF_NODES)]
 KEYS = TASK_KEYS + WF_KEYS
@@ -113,8 +131,16 @@ class Sandbox:
         n = int(key[1:])
         L = self.logs
         if key[0] == "t":
-            return [Add(x=1, log=L[0]), Add(x=2, log=L[1]), FailFirst(x=2, log=L[2]), Fail(x=5, log=L[3]), OkFirst(x=7, log=L[4])][n]
-        return [Chain2(x=1, log_a=L[0], log_b=L[1]), ChainF(x=1, log_a=L[0], log_c=L[2])][n]
+            return [
+                Add(x=1, log=L[0]), Add(x=2, log=L[1]), FailFirst(x=2, log=L[2]), Fail(x=5, log=L[3]), OkFirst(x=7, log=L[4]),
+                Add(x=3, log=L[5]), Add(x=4, log=L[6]),
+            ][n]  # fmt: skip
+        return [
+            Chain2(x=1, log_a=L[0], log_b=L[1]),
+            ChainF(x=1, log_a=L[0], log_c=L[2]),
+            Nest2(x=1, log_a=L[0], log_b=L[1], log_c=L[5]),
+            Nest3(x=1, log_a=L[0], log_b=L[1], log_c=L[5], log_d=L[6]),
+        ][n]
 
     # ---- observation -------------------------------------------------------------------------------
 
@@ -205,7 +231,7 @@ class Sandbox:
 
         others = [l for l in range(N_LOCS) if l != root]
         before = {l: self.snapshot(l) for l in others}
-        stamp = self.result_stamp(root, key)
+        stamps = {k: self.result_stamp(root, k) for k in WF_KEYS}  # the submitted workflow and any nested in it
         kw = {"n_procs": 2} if worker == "cf" else {}
         task = self.task(key)
         try:
@@ -220,8 +246,9 @@ class Sandbox:
             out = "err" if res.errored else res.outputs.out
         except Exception:
             out = "err"
-        if key[0] == "w" and self.result_stamp(root, key) != stamp:
-            self.wf_execs[key] += 1
+        for k in WF_KEYS:  # a new result file of a workflow identity under the root = that workflow job executed
+            if self.result_stamp(root, k) != stamps[k]:
+                self.wf_execs[k] += 1
         untouched = all(self.snapshot(l) == before[l] for l in others)
         return out, untouched
 
@@ -283,20 +310,27 @@ def reference(case: dict):
         cache[root][key] = r
         return r
 
-    def sub_wf(n, nodes, root, ro, rerun, prop):
+    def run_wf(n, nodes, root, ro, rerun, prop):
+        """a workflow job (submitted or nested) run with flag `rerun`; its node jobs get `rerun and prop`, at every depth"""
         key = f"w{n}"
         f = None if rerun else find(key, [root] + ro)
         if f is not None and f != "err":
             return f
         ok = True
-        for m in nodes:
-            if sub_task(m, root, ro, rerun and prop) == "err":
+        for node in nodes:
+            if isinstance(node, int):
+                r = sub_task(node, root, ro, rerun and prop)
+            else:
+                r = run_wf(node[1], node[2], root, ro, rerun and prop, prop)
+            if r == "err":
                 ok = False
                 break
         r = WF_VALS[n] if ok else "err"
         execs[key] += 1
         cache[root][key] = r
         return r
+
+    sub_wf = run_wf
 
     for op in case["ops"]:
         if op[0] == "plant":
@@ -321,6 +355,7 @@ def model_case(case: dict, skip: bool = True) -> dict:
         "bodies": [[n, l] for n, l in sorted(BODIES.items())],
         "wvals": [[n, v] for n, v in sorted(WF_VALS.items())],
         "skip": skip,
+        "nest": True,
         "locs": list(range(N_LOCS)),
         "keys": KEYS,
         "ops": ops,
